@@ -335,7 +335,7 @@ func c04Values(T *Tape, v primitive.ProtocolVersion) []c04Target {
 	add("Int", datacodec.Int, int32(x), func() interface{} { return new(int32) }, func() interface{} { return new(int64) }, func() interface{} { return new(string) }, iface)
 	add("Bigint", datacodec.Bigint, x<<20, func() interface{} { return new(int64) }, func() interface{} { return new(*big.Int) }, func() interface{} { return new(uint8) }, iface)
 	add("Varint", datacodec.Varint, new(big.Int).Lsh(big.NewInt(x), 70), func() interface{} { return new(*big.Int) }, func() interface{} { return new(int64) }, iface)
-	add("Decimal", datacodec.Decimal, datacodec.CqlDecimal{Unscaled: big.NewInt(x), Scale: 3}, func() interface{} { return new(datacodec.CqlDecimal) }, iface)
+	add("Decimal", datacodec.Decimal, datacodec.CqlDecimal{Unscaled: big.NewInt(x), Scale: 3}, func() interface{} { return new(datacodec.CqlDecimal) }, func() interface{} { return new(string) }, func() interface{} { return new(float64) }, iface)
 	add("Varchar", datacodec.Varchar, s, func() interface{} { return new(string) }, func() interface{} { return new([]byte) }, iface)
 	add("Blob", datacodec.Blob, []byte(s), func() interface{} { return new([]byte) }, func() interface{} { return new(string) }, iface)
 	add("Boolean", datacodec.Boolean, true, func() interface{} { return new(bool) }, func() interface{} { return new(int) }, iface)
@@ -633,6 +633,7 @@ func c04Case(w *Worker, i int) {
 		return int(splitmix(&ps) % uint64(n))
 	}
 	huge := w.Job.Shard == 0
+	hangSeen := map[string]bool{}
 	for ti := range targets {
 		if w.expired() {
 			return
@@ -649,6 +650,13 @@ func c04Case(w *Worker, i int) {
 		}
 		for _, f := range fails {
 			if len(f.what) >= 4 && f.what[:4] == "hang" {
+				// one confirmed hang per entry point and worker is enough: every further one costs minutes
+				ep := c04EntryClass(t.name)
+				if hangSeen[ep] {
+					w.Out.Counters["further_hangs_of_an_entry_point_already_reported"]++
+					continue
+				}
+				hangSeen[ep] = true
 				// a real-time watchdog can fire under load: confirm alone with a much longer budget
 				again, _ := c04Battery(ti, t, []c04Mut{f.mut}, 120*time.Second)
 				if len(again) == 0 {
